@@ -885,6 +885,26 @@ def construct(ex, st, ci, e, cx, k):
             return k(s2, r)
         return call_function(ex, s2, init, [r] + vs[:len(e.args)], dict(zip(kws.keys(), vs[len(e.args):])),
                              cx, e, lambda s3, _: k(s3, r))
+    # an empty list literal passed to the constructor takes its element type from the parameter it is passed for
+    args_ = list(e.args)
+    if any(isinstance(a, ast.List) and not a.elts for a in args_):
+        oc_, init_ = ex.repo.find_method(ci.name, '__init__')
+        if init_ is not None:
+            c_ = ex.reg.primary(init_.key)
+            ptys = param_types(ex, init_, c_) if c_ is not None else {}
+            names = init_.params[1:]
+
+            def go(st, i, acc):
+                if i == len(args_):
+                    return ex.ev_list(st, list(kws.values()), cx, lambda s_, kv: f(s_, acc + kv))
+                a = args_[i]
+                pt = ptys.get(names[i]) if i < len(names) else None
+                if isinstance(a, ast.List) and not a.elts and pt is not None and pt.kind == 'list':
+                    from .stmts import new_empty
+                    s_, r_ = new_empty(ex, st, pt)
+                    return go(s_, i + 1, acc + [r_])
+                return ex.ev(st, a, cx, lambda s_, v_: go(s_, i + 1, acc + [v_]))
+            return go(st, 0, [])
     return ex.ev_list(st, list(e.args) + list(kws.values()), cx, f)
 
 
